@@ -272,6 +272,33 @@ class Grid3Scales(Grid):
 
         return z, pz, pp
 
+    def compactify(
+            self,
+            z: np.ndarray, # pylint: disable=invalid-name
+            pz: np.ndarray, # pylint: disable=invalid-name
+            pp: np.ndarray, # pylint: disable=invalid-name
+            ) -> tuple[np.ndarray, ...]:
+        r"""
+        Transforms coordinates to [-1, 1] interval (inverse of decompactify).
+
+        The position mapping has no closed-form inverse. It is strictly increasing
+        in :math:`\chi`, so it is inverted by bisection on [-1, 1].
+        """
+        _, pzCompact, ppCompact = super().compactify(z, pz, pp)
+
+        z = np.asarray(z, dtype=float) # pylint: disable=invalid-name
+        lower = np.full(z.shape, -1.0)
+        upper = np.full(z.shape, 1.0)
+        # 60 halvings of [-1, 1] resolve chi to better than machine precision
+        for _ in range(60):
+            middle = (lower + upper) / 2
+            isBelow = self.decompactify(middle, 0.0, 0.0)[0] < z
+            lower = np.where(isBelow, middle, lower)
+            upper = np.where(isBelow, upper, middle)
+        zCompact = np.where(np.isnan(z), np.nan, (lower + upper) / 2)
+
+        return zCompact, pzCompact, ppCompact
+
     def compactificationDerivatives(
             self,
             zCompact: np.ndarray,
